@@ -142,6 +142,27 @@ func runC17(c *eng.Ctx) {
 							if eng.HasAtom(g, "^p1$", true) || blockIsTrueSuccOf(lf.pred, fn.Params[1]) {
 								exempt = "root open with caller-approved symbolic-link leaf"
 							}
+							// the flag may instead be ADDED under !allow: then the value without
+							// it travels along the edge of lf.pred on which allow is true
+							if iff, ok := lf.pred.Instrs[len(lf.pred.Instrs)-1].(*ssa.If); ok && exempt == "" && len(lf.pred.Succs) == 2 {
+								for s, succ := range lf.pred.Succs {
+									a := eng.MkAtom(iff.Cond, s == 0)
+									if a.Expr != "p1" || !a.Pos {
+										continue
+									}
+									for _, in := range succ.Instrs {
+										phi, isPhi := in.(*ssa.Phi)
+										if !isPhi {
+											break
+										}
+										for i, e := range phi.Edges {
+											if v, isC := eng.ConstInt64(e); isC && v == lf.val && succ.Preds[i] == lf.pred {
+												exempt = "root open with caller-approved symbolic-link leaf (flag added only under !allow)"
+											}
+										}
+									}
+								}
+							}
 						}
 					}
 					c.Check("R1", fmt.Sprintf("%s/flags=%#x", key, lf.val), call.Pos(), has || exempt != "", "every flag combination reaching this openat contains O_NOFOLLOW", exempt)
